@@ -1,0 +1,57 @@
+//! Read-only introspection used by external verification harnesses.
+//!
+//! Compiled only with `--cfg priority_queue_verif`; it is not part of the
+//! public API of the crate and changes no behaviour.
+
+#[cfg(not(feature = "std"))]
+use std::vec::Vec;
+
+use crate::store::Store;
+use crate::{DoublePriorityQueue, PriorityQueue};
+
+/// A copy of the index structures of a queue, taken with checked accesses only,
+/// so that it is safe to take even from a queue whose invariants are broken.
+#[derive(Clone, Debug, PartialEq, Eq)]
+pub struct VerifSnapshot {
+    /// The length the queue reports
+    pub size: usize,
+    /// The number of entries of the underlying map
+    pub map_len: usize,
+    /// heap position -> map index
+    pub heap: Vec<usize>,
+    /// map index -> heap position
+    pub qp: Vec<usize>,
+}
+
+fn snapshot<I, P, H>(store: &Store<I, P, H>) -> VerifSnapshot {
+    VerifSnapshot {
+        size: store.size,
+        map_len: store.map.len(),
+        heap: store.heap.iter().map(|i| i.0).collect(),
+        qp: store.qp.iter().map(|p| p.0).collect(),
+    }
+}
+
+impl<I, P, H> PriorityQueue<I, P, H> {
+    /// Copy of the internal index tables
+    pub fn verif_snapshot(&self) -> VerifSnapshot {
+        snapshot(&self.store)
+    }
+
+    /// The stored pair at map index `index`, if any (checked access)
+    pub fn verif_slot(&self, index: usize) -> Option<(&I, &P)> {
+        self.store.map.get_index(index)
+    }
+}
+
+impl<I, P, H> DoublePriorityQueue<I, P, H> {
+    /// Copy of the internal index tables
+    pub fn verif_snapshot(&self) -> VerifSnapshot {
+        snapshot(&self.store)
+    }
+
+    /// The stored pair at map index `index`, if any (checked access)
+    pub fn verif_slot(&self, index: usize) -> Option<(&I, &P)> {
+        self.store.map.get_index(index)
+    }
+}
